@@ -151,3 +151,15 @@ def _rec_ghosts():
 
 
 _rec_ghosts()
+
+contract("ghost:dump_fields_recompose", use_at_calls=False,
+         requires=["normal24(p)"],
+         cases=[Case("%s-%s" % (d, t), lambda E, st, d=d, t=t: {
+             "p": mk_timepoint(E, st, "p", d, t)}) for d in DATES for t in ("hms",)])
+contract("ghost:strftime_year_is_civil_year", use_at_calls=False, opaque=["dby"],
+         requires=["normal24(p)"],
+         cases=[Case("%s-hms" % d, lambda E, st, d=d: {
+             "p": mk_timepoint(E, st, "p", d, "hms")}) for d in DATES])
+for _q in ("TimePoint.to_calendar_date", "TimePoint.to_ordinal_date",
+           "TimePoint.to_week_date", "TimePoint.to_hour_minute_second"):
+    contract("data:" + _q, inline=True)
